@@ -314,6 +314,47 @@ pub struct Flat {
     pub rest: Plain,
 }
 
+// borrowed strings inside the containers serde deserializes through its buffered `Content` (untagged,
+// internally / adjacently tagged, flatten): they can only borrow when the deserializer hands out
+// `visit_borrowed_str` for escape-free strings
+#[derive(Deserialize, PartialEq, Debug)]
+#[serde(untagged)]
+pub enum UntaggedB<'a> {
+    N(i64),
+    S(&'a str),
+    R {
+        #[serde(borrow)]
+        a: Cow<'a, str>,
+    },
+}
+
+#[derive(Deserialize, PartialEq, Debug)]
+#[serde(tag = "t")]
+pub enum InternalB<'a> {
+    A { x: &'a str },
+    B { y: i32 },
+}
+
+#[derive(Deserialize, PartialEq, Debug)]
+#[serde(tag = "t", content = "c")]
+pub enum AdjacentB<'a> {
+    A(&'a str),
+    B { y: i32 },
+}
+
+#[derive(Deserialize, PartialEq, Debug)]
+pub struct FlatInnerB<'a> {
+    pub s: &'a str,
+    pub n: Option<i8>,
+}
+
+#[derive(Deserialize, PartialEq, Debug)]
+pub struct FlatB<'a> {
+    pub id: u32,
+    #[serde(flatten, borrow)]
+    pub rest: FlatInnerB<'a>,
+}
+
 pub fn plain_shape() -> Shape {
     Shape::Struct(vec![("a", Shape::Int { signed: true, bits: 32 }, false), ("b", Shape::Str, false), ("c", Shape::Opt(Box::new(Shape::Bool)), true)])
 }
